@@ -165,6 +165,25 @@ fn spin_recv<T>(rx: &Receiver<T>, timeout: Option<Duration>) -> Option<T> {
     }
 }
 
+/// how `execute` sets the scene: 0 = the shared descriptor gets a number >= 300; 1 = it gets the number 0 (a process whose
+/// stdin is closed: 0 is a descriptor number like any other); 2 = the kernel answers the `close` of the shared
+/// descriptor with EINTR once (on Linux the descriptor is released all the same: the call must not be repeated)
+static EXEC_MODE: std::sync::atomic::AtomicU8 = std::sync::atomic::AtomicU8::new(0);
+static EINTR_ONCE_FD: std::sync::atomic::AtomicI32 = std::sync::atomic::AtomicI32::new(-1);
+
+/// Every `close` of this process goes through here (the executable's symbol takes precedence over libc's): the system
+/// call itself, plus the injected EINTR answer for one armed descriptor number.
+#[no_mangle]
+pub extern "C" fn close(fd: libc::c_int) -> libc::c_int {
+    use std::sync::atomic::Ordering::SeqCst;
+    let r = unsafe { libc::syscall(libc::SYS_close, fd) } as libc::c_int;
+    if fd >= 0 && EINTR_ONCE_FD.compare_exchange(fd, -1, SeqCst, SeqCst).is_ok() {
+        unsafe { *libc::__errno_location() = libc::EINTR };
+        return -1;
+    }
+    r
+}
+
 fn nofile_soft() -> libc::rlim_t {
     let mut r = libc::rlimit { rlim_cur: 0, rlim_max: 0 };
     unsafe { libc::getrlimit(libc::RLIMIT_NOFILE, &mut r) };
@@ -379,8 +398,17 @@ const RECV_TIMEOUT: Duration = Duration::from_secs(20);
 /// run the programs once: follow `prefix`, afterwards always grant the lowest enabled thread
 fn execute(pool: &Pool, base_fd: i32, programs: &[Vec<OpK>], prefix: &[u8]) -> Exec {
     let n = programs.len();
-    let orig = unsafe { libc::fcntl(base_fd, libc::F_DUPFD_CLOEXEC, 300) };
-    assert!(orig >= 300, "cannot create the shared descriptor");
+    let mode = EXEC_MODE.load(std::sync::atomic::Ordering::SeqCst);
+    let orig = if mode == 1 {
+        let r = unsafe { libc::dup2(base_fd, 0) };
+        assert!(r == 0, "cannot install the shared descriptor as number 0");
+        0
+    } else {
+        let r = unsafe { libc::fcntl(base_fd, libc::F_DUPFD_CLOEXEC, 300) };
+        assert!(r >= 300, "cannot create the shared descriptor");
+        r
+    };
+    EINTR_ONCE_FD.store(if mode == 2 { orig } else { -1 }, std::sync::atomic::Ordering::SeqCst);
     let mut ex = Exec {
         schedule: Vec::new(),
         enabled: Vec::new(),
@@ -1093,6 +1121,34 @@ pub fn run(cfg: &Cfg) {
             }
         }
     }
+    // ---- the same small program sets in two unusual environments: the shared descriptor has the NUMBER 0; the kernel
+    //      answers the close of the shared descriptor with EINTR (descriptor released all the same)
+    for (mode, tag) in [(1u8, "descriptor_number_0"), (2u8, "close_answers_eintr")] {
+        if st.fatal || st.violating >= MAX_VIOLATING {
+            break;
+        }
+        EXEC_MODE.store(mode, std::sync::atomic::Ordering::SeqCst);
+        let small = valid_programs(2);
+        'outerm: for i in 0..small.len() {
+            for j in i..small.len() {
+                let b = interleavings_bound(&[weight(&small[i]), weight(&small[j])]);
+                if b > 2500.0 {
+                    continue;
+                }
+                let programs = vec![small[i].clone(), small[j].clone()];
+                let c = explore(&mut out, &mut st, &pool, base_fd, &programs, b);
+                sets += 1;
+                out.hit(&format!("program_sets_{}", tag));
+                out.hit_n(&format!("schedules_{}", tag), c);
+                if st.fatal || st.violating >= MAX_VIOLATING {
+                    complete = false;
+                    break 'outerm;
+                }
+            }
+        }
+        EXEC_MODE.store(0, std::sync::atomic::Ordering::SeqCst);
+        EINTR_ONCE_FD.store(-1, std::sync::atomic::Ordering::SeqCst);
+    }
     // ---- 3 threads
     if !st.fatal && st.violating < MAX_VIOLATING {
         let progs3 = valid_programs(len3);
@@ -1129,7 +1185,7 @@ pub fn run(cfg: &Cfg) {
     out.hit_n("max_schedules_per_estimate_percent", st.max_ratio_pct);
     out.hit_n("program_sets", sets);
     let rule = format!(
-        "real threads under a deterministic scheduler (verif_hooks callback blocks at every FdLoad / FdCompareExchange / FdInnerDrop / FdDup / FdClose point and at every operation start; one thread runs at a time); EVERY complete interleaving (stateless DFS, programs re-run from scratch per schedule) of: all unordered pairs of borrow-valid programs of <= {} operations over take/get/dup/clone/drop (each thread starts with one clone of the handle and drops what it still owns at its end) whose static interleaving estimate is <= {}, and all unordered triples of such programs of <= {} operation(s) with estimate <= {}; programs of <= 2 operations containing a REFUSED dup (EMFILE injected when the thread is released from its FdDup point) against all programs of <= 2 operations; one case per complete schedule (request = programs + schedule, so distinct by construction); non-trivial = some thread was preempted inside an operation; plus free-running race rounds (2 and 3 unscheduled threads released through a spin barrier on clones of a handle wrapping a pipe end; take count, taken => still open, not taken => closed, judged from the kernel's view) as a search between the hook points",
+        "real threads under a deterministic scheduler (verif_hooks callback blocks at every FdLoad / FdCompareExchange / FdInnerDrop / FdDup / FdClose point and at every operation start; one thread runs at a time); EVERY complete interleaving (stateless DFS, programs re-run from scratch per schedule) of: all unordered pairs of borrow-valid programs of <= {} operations over take/get/dup/clone/drop (each thread starts with one clone of the handle and drops what it still owns at its end) whose static interleaving estimate is <= {}, and all unordered triples of such programs of <= {} operation(s) with estimate <= {}; programs of <= 2 operations containing a REFUSED dup (EMFILE injected when the thread is released from its FdDup point) against all programs of <= 2 operations; all pairs of programs of <= 2 operations again with the shared descriptor having the NUMBER 0, and again with the kernel answering the close of the shared descriptor with EINTR (every close of the process goes through an interposed `close`); one case per complete schedule (request = programs + schedule, so distinct by construction); non-trivial = some thread was preempted inside an operation; plus free-running race rounds (2 and 3 unscheduled threads released through a spin barrier on clones of a handle wrapping a pipe end; take count, taken => still open, not taken => closed, judged from the kernel's view) as a search between the hook points",
         len2, cap2, len3, cap3
     );
     out.finish(&rule, complete);
